@@ -3,3 +3,4 @@ import RV.Drive.All
 import RV.Props.C07
 import RV.Props.C17
 import RV.Props.C18
+import RV.Props.C16
